@@ -760,7 +760,7 @@ func workerMain(args []string) int {
 	// soft memory limit per worker: restore loops allocate megabytes per iteration, and on one P the
 	// concurrent collector's "live heap" includes everything allocated during the cycle, so the heap goal
 	// doubles cycle after cycle (16 workers of 10-30 GB were OOM-killed in a thorough dry run of C13)
-	debug.SetMemoryLimit(2500 << 20)
+	debug.SetMemoryLimit(1500 << 20)
 	if f := os.Getenv("VERIF_HEAPPROF"); f != "" { // development aid: heap profile after 400 ms
 		go func() {
 			time.Sleep(400 * time.Millisecond)
